@@ -53,7 +53,11 @@ func c19Probe(c c19LineCase) []byte {
 
 func c19LineRun(c c19LineCase) Verdict {
 	cfg := harness.Config{MaxLineLength: c.L}
-	r := harness.NewRig(cfg, harness.Script{})
+	script := harness.Script{}
+	if c.Position == "after-failed-chunk" {
+		script.Data = []harness.DataPlan{{Read: harness.ReadPlan{Limit: 0}, Result: harness.Decision{Kind: "smtp", Code: 452, Enh: [3]int{4, 3, 1}, Msg: "no space"}}}
+	}
+	r := harness.NewRig(cfg, script)
 	w, _ := r.Dial()
 	if st := w.WaitQuiet(); st != harness.QIdle {
 		w.Finish()
@@ -79,6 +83,13 @@ func c19LineRun(c c19LineCase) Verdict {
 		pre.cmd("MAIL FROM:<s@x>", expect{Code: 250})
 		pre.cmd("RCPT TO:<r@x>", expect{Code: 250})
 		pre.cmd("BDAT 3 LAST", expect{Code: 250})
+		pre.raw([]byte("abc"))
+	case "after-failed-chunk":
+		// the backend refuses the delivery without reading: the chunk fails
+		pre.cmd("EHLO cli", expect{Code: 250})
+		pre.cmd("MAIL FROM:<s@x>", expect{Code: 250})
+		pre.cmd("RCPT TO:<r@x>", expect{Code: 250})
+		pre.cmd("BDAT 3", expect{Code: 452})
 		pre.raw([]byte("abc"))
 	}
 	probe := c19Probe(c)
@@ -183,11 +194,11 @@ func c19LineRun(c c19LineCase) Verdict {
 
 func c19GenLine(t *rapid.T) c19LineCase {
 	c := c19LineCase{L: rapid.SampledFrom([]int{32, 64, 2000}).Draw(t, "l")}
-	c.Position = rapid.SampledFrom([]string{"first", "greeted", "txn", "between-chunks", "after-last"}).Draw(t, "pos")
+	c.Position = rapid.SampledFrom([]string{"first", "greeted", "txn", "between-chunks", "after-last", "after-failed-chunk"}).Draw(t, "pos")
 	switch c.Position {
 	case "first":
 		c.Kind = rapid.SampledFrom([]string{"noop", "junk"}).Draw(t, "kind")
-	case "greeted", "after-last":
+	case "greeted", "after-last", "after-failed-chunk":
 		c.Kind = rapid.SampledFrom([]string{"noop", "mail", "junk"}).Draw(t, "kind")
 	case "txn":
 		c.Kind = rapid.SampledFrom([]string{"noop", "rcpt", "junk"}).Draw(t, "kind")
@@ -214,7 +225,11 @@ type c19EndlessCase struct {
 }
 
 func c19EndlessRun(c c19EndlessCase) Verdict {
-	r := harness.NewRig(harness.Config{MaxLineLength: c.L}, harness.Script{})
+	escript := harness.Script{}
+	if c.Position == "after-failed-chunk" {
+		escript.Data = []harness.DataPlan{{Read: harness.ReadPlan{Limit: 0}, Result: harness.Decision{Kind: "smtp", Code: 452, Enh: [3]int{4, 3, 1}, Msg: "no space"}}}
+	}
+	r := harness.NewRig(harness.Config{MaxLineLength: c.L}, escript)
 	w, _ := r.Dial()
 	if st := w.WaitQuiet(); st != harness.QIdle {
 		w.Finish()
@@ -222,6 +237,8 @@ func c19EndlessRun(c c19EndlessCase) Verdict {
 	}
 	var pre []byte
 	switch c.Position {
+	case "after-failed-chunk":
+		pre = []byte("EHLO cli\r\nMAIL FROM:<s@x>\r\nRCPT TO:<r@x>\r\nBDAT 3\r\nabc")
 	case "greeted":
 		pre = []byte("EHLO cli\r\n")
 	case "between-chunks":
@@ -525,7 +542,7 @@ func TestC19(t *testing.T) {
 	// endless lines: small finite set
 	idx := 0
 	for _, l := range []int{64, 2000} {
-		for _, pos := range []string{"first", "greeted", "between-chunks", "after-last"} {
+		for _, pos := range []string{"first", "greeted", "between-chunks", "after-last", "after-failed-chunk"} {
 			for _, seg := range []int{4096, 65536} {
 				idx++
 				if !mine(idx) {
